@@ -98,3 +98,8 @@ Fixpoint match_magic (magic b : list Z) : bool :=
 Definition sniff (data : list Z) : bool :=
   if len data <? len webp_magic then false
   else match_magic webp_magic (firstn (length webp_magic) data).
+
+(** The pinned tree's header queries (before commits 86109c7 / f5aa050), kept only
+    as the subject of the [_refuted] theorems. *)
+Definition pinned_decode_config : list Z -> Res Config := decode_config false false.
+Definition pinned_get_features : list Z -> Res GFeatures := get_features false.
